@@ -5,6 +5,7 @@ package mon
 
 import (
 	"fmt"
+	markettypes "github.com/regen-network/regen-ledger/x/ecocredit/v3/marketplace/types/v1"
 	"math/big"
 	"sort"
 	"strings"
@@ -82,6 +83,11 @@ func precision(s *chain.Snapshot, batchKey uint64) int {
 
 // amount parses a stored credit amount; problems are returned as a reason.
 func amount(str string, prec int) (*big.Rat, string) {
+	if str == "" {
+		// an absent field (proto3 default), which the modules' own genesis validation admits and every
+		// handler reads as zero
+		return ref.Zero(), ""
+	}
 	d, err := ref.Parse(str)
 	if err != nil {
 		return ref.Zero(), "unparseable"
@@ -140,3 +146,21 @@ func actType(a *explore.Action) string {
 }
 
 func sortStrings(s []string) { sort.Strings(s) }
+
+// feeParamsAsSet: after a successful MsgGovSetFeeParams the stored rates are the ones the message carries
+// (every fee clause reads the rates back from state).
+func feeParamsAsSet(st *explore.Step) []string {
+	msg, ok := st.Res.Msg.(*markettypes.MsgGovSetFeeParams)
+	if !ok || !st.Res.OK || msg.Fees == nil {
+		return nil
+	}
+	fp := st.Post.FeeParams
+	gb, gs := "", ""
+	if fp != nil {
+		gb, gs = fp.BuyerPercentageFee, fp.SellerPercentageFee
+	}
+	if gb != msg.Fees.BuyerPercentageFee || gs != msg.Fees.SellerPercentageFee {
+		return []string{fmt.Sprintf("%s: stored buyer rate %q seller rate %q, the message sets %q and %q", st.Act.Label, gb, gs, msg.Fees.BuyerPercentageFee, msg.Fees.SellerPercentageFee)}
+	}
+	return nil
+}
